@@ -185,3 +185,11 @@ func init() {
 		Assumptions: []string{"bound tokens come from the reference semantics of DESIGN.md section 4 (any accepting derivation)", "when two containers are filled and one Set fails, the other container may or may not have been filled (map iteration order): both are accepted"},
 	})
 }
+
+func init() {
+	addProp(&propDef{
+		ID: "C17", Check: "helptext", Level: "exploration",
+		Rule: "every single-item declaration over the full variant product (option name lists, environment lists, the seven types with zero / non-zero default, HideValue, empty / one-line / three-line descriptions; arguments alike; sub-commands with 1-3 aliases, Hidden, LongDesc) and every declaration set of <= 2 arguments + <= 2 options + <= 2 sub-commands over 6 variants per item, each at depth 0 and 1, short help (printed on a rejected invocation) and long help (--help); an environment variable named by an item is SET while the application is declared; the captured text is compared, after whitespace normalisation, with the ordered rows of a reference renderer (usage line with path, spec or the synthesised spec, COMMAND marker; description or long description; Arguments; Options with first short and first long name; non-hidden Commands with all aliases; env lists; declared defaults unless hidden), and hidden aliases must not occur anywhere; non-trivial = declarations with at least two items",
+		Assumptions: []string{"how each built-in type prints its default (\"dflt\" quoted, [7, 8], 0 for a zero int/float, nothing for false / empty) is taken from the repository's golden help files"},
+	})
+}
